@@ -792,6 +792,13 @@ func (e *Exec) siteAsserts(ins ssa.Instruction, callee string, args []Value, st 
 		return
 	}
 	inlined := e.parent != nil
+	// a call through a function-typed parameter is named by the parameter, not by the function
+	// that declares it (whose name would also match patterns meant for calls of that function)
+	if strings.HasPrefix(callee, "fnparam:") {
+		if i := strings.LastIndex(callee, "."); i >= 0 {
+			callee = callee[i+1:]
+		}
+	}
 	for ai, sa := range root.fc.Asserts {
 		if sa.When != when {
 			continue
